@@ -21,6 +21,7 @@
   NNG_EAGAIN correctly is C15 / finding F13, judged elsewhere).
 -/
 import NngModel.Spec.Rep
+import NngModel.Generated.Base
 namespace Nng.RawSpec
 open Nng Nng.Proto Nng.RepSpec
 
